@@ -144,6 +144,11 @@ func mkSchedBody(c *lib.Ctx, threads []string, pre int) func() vsync.Body {
 					if r.NumDNS > uint64(pre+nUpd) {
 						return fmt.Sprintf("overcount-in-response: %d queries reported, %d were counted", r.NumDNS, pre+nUpd)
 					}
+					// Updates that completed before the threads started are in every
+					// response, whatever the flush is doing at that moment.
+					if !reset && r.NumDNS < uint64(pre) {
+						return fmt.Sprintf("undercount-in-response: %d queries had been counted before the read began, the response reports %d", pre, r.NumDNS)
+					}
 				}
 				if closed {
 					// Restart on the same file, as after a clean shutdown.
